@@ -6,7 +6,7 @@ from ..core import MachineryError
 from ..spell import spell, checked_pools, POOLS
 
 LEVEL = 'model_checking'
-PLAIN = ['caseexpr', 'parensemi', 'createplain', 'txbegin']
+PLAIN = ['caseexpr', 'parensemi', 'createplain', 'txbegin', 'plainkw']
 
 # replacement bodies for opaque regions (DESIGN C05): none contains the region's own terminator
 BODIES = ["it''s;", "'';''", '"";', '``;', ';', 'a;b', '; select 1;', "x'y", 'x"y', '`', '/*', '*/', '--', ' BEGIN ', 'END;', 'GO',
